@@ -5,7 +5,8 @@ from . import fmtgen as G
 
 PAGE = 4096
 ASSUME = [
-    "Splitter::split is driven directly with batches of entry lengths (hook H1); the physical placement "
+    "Splitter::split is driven directly with batches of entry lengths (hook H1), half of them filled by the real Buffer::push "
+    "and read back entry by entry from the parts' data at the indexed offsets; the physical placement "
     "(data at blob_block_offset + part_blob_offset, index page at blob_block_offset) is flusher.rs's; "
     "the device-level end-to-end comparison (real flushers, independent image parser) belongs to the storage stream",
     "every batch goes into clean blocks (reclaim/reuse is the storage stream's subject)",
@@ -44,7 +45,11 @@ def gen(rng, tier):
             else:
                 lens = [rng.choice([1, 4096, maxlen])]
             lens = [max(1, min(l, maxlen)) for l in lens]
-            s.append(f"split lens={','.join(map(str, lens))} seq0={seq}")
+            via = ""
+            if rng.random() < 0.5:
+                # the buffer is filled by the real Buffer::push (serialized entries are at least 52 bytes)
+                lens = [max(52, l) for l in lens]; via = " viabuf=1"
+            s.append(f"split lens={','.join(map(str, lens))} seq0={seq}{via}")
             seq += len(lens)
         scripts.append(s)
     return scripts
@@ -74,6 +79,10 @@ def oracle(lines):
         if cmd.startswith("splitnew"):
             B, I = int(k["B"]), int(k["I"]); base, blocks = 0, {}
             continue
+        if "databad=" in o:
+            bad = G.kv(o)
+            return (n, f"{bad['databad']} entries of the batch do not deserialize from the part data at their indexed offset "
+                       f"(buffer layout and splitter index disagree); {bad['lenbad']} entries pushed with a different length")
         nb, parts = parse_parts(o)
         lens = [int(x) for x in k["lens"].split(",") if x]
         placed = []
@@ -121,6 +130,24 @@ def oracle(lines):
             want = [(st, h, s, ln) for st, _, h, s, ln in b["entries"]]
             if got != want:
                 return (n, f"scanning block {g} yields {len(got)} entries {got[:3]}.. but {len(want)} were written {want[:3]}..")
+    return None
+
+
+def must_hit(lines):
+    """burst stream: after the flushers have drained, every inserted key is read back (memory holds one entry)"""
+    from . import hybrid as H
+    latest, armed = {}, False
+    for n, l in enumerate(lines):
+        name, kv, r, nw, ew, wl = H.parse(l)
+        if name == "ins":
+            latest[int(kv["k"])] = int(kv["ver"])
+        elif name == "wait":
+            armed = True
+        elif name == "get" and armed:
+            k = int(kv["k"])
+            res = H.lookup_result(r)
+            if res is None or res[0] == "err":
+                return (n, f"key {k} (version {latest.get(k)}) was flushed and never overwritten, removed or reclaimed, but is not read back")
     return None
 
 
@@ -178,9 +205,24 @@ def run(pid, tier, seed, gate, replay=None):
             ops += ["close", "reopen"] + [f"get k={k}" for k in range(1, total + 1)]
             hs.append(H.cfg_line(policy="woi", algo="fifo", mem=1, univ=total + 1, block=pages * 4096, blocks=nblocks, index=4096)
                       + "\n" + "\n".join(ops) + "\n")
+        # bursts: many entries in one flusher batch (flushers held while they are inserted), sizes around the page
+        # multiples (52 bytes of header, key and length prefix + the value), nothing reclaimed: every key must be read
+        # back, before and after a restart
+        nb = len(hs)
+        for i in range(6 if tier == "thorough" else 2):
+            ops, ver = ["hold"], 1
+            n = rng.choice([6, 20, 40])
+            for k in range(1, n + 1):
+                ops.append(f"ins k={k} ver={ver} size={rng.choice([100, 3000, 4043, 4044, 4044, 4045, 8140, 8140, 12236, 20000])}"); ver += 1
+            ops += ["unhold", "wait"] + [f"get k={k}" for k in range(1, n + 1)]
+            ops += ["close", "reopen"] + [f"get k={k}" for k in range(1, n + 1)]
+            hs.append(H.cfg_line(policy="woi", algo="fifo", mem=1, univ=n + 1, block=1048576, blocks=8, index=4096)
+                      + "\n" + "\n".join(ops) + "\n")
         e2e_n = len(hs)
-        for sc, (cfgl, lines) in zip(hs, H.run_many(hs)):
+        for j, (sc, (cfgl, lines)) in enumerate(zip(hs, H.run_many(hs))):
             o = H.oracle_c01(cfgl, lines)
+            if not o and j >= nb:
+                o = must_hit(lines)
             if o:
                 e2e_fail = (sc, lines, o); break
     violations = []
